@@ -28,6 +28,11 @@ def _one(item):
     k, (route, shape, rate, bs, pert) = item
     d = env.subdir(f'c20-{os.getpid()}')
     cube = inputs.cube(shape, par.G['seed'] + (k if pert is None else 0))
+    if pert == 'nonfinite':         # NaN and infinities are float32 samples like any other as far as the hash goes
+        cube = cube.copy()
+        flat = cube.reshape(-1)
+        flat[1], flat[len(flat) // 2], flat[-1] = np.nan, np.inf, -np.inf
+        pert = None
     if pert is not None:
         cube = cube.copy()
         v = cube[pert]
@@ -71,6 +76,12 @@ def _one(item):
         if par.G.get('reblock') and route == 'numpy' and rate == 2 and bs == (4, 4, -1):
             from seismic_zfp.conversion import SgzConverter
             q = p + '.adv'
+            if k % 2 == 0:      # a source that lives under a very long (legal) path
+                deep = os.path.join(d, *(['d' * 200] * 5))
+                os.makedirs(deep, exist_ok=True)
+                p2 = os.path.join(deep, 'src.sgz')
+                os.replace(p, p2)
+                p = p2
             with env.quiet():
                 with SgzConverter(p) as c:
                     c.convert_to_adv_sgz(q)
@@ -119,6 +130,8 @@ def plan(run):
         for route in ('numpy', 'segy', 'segy-iops'):
             if not (route == 'numpy' and bs is None):
                 P.append((route, shape, rate, bs, None))
+    for route, shape, rate, bs in (('numpy', (5, 6, 20), 16, (4, 4, -1)), ('segy', (5, 6, 20), 16, None), ('segy-iops', (5, 6, 20), 32, (8, 8, 16)), ('2d', (9, 40), 16, (1, 4, -1))):
+        P.append((route, shape, rate, bs, 'nonfinite'))
     shapes2 = [(9, 70), (4, 8), (21, 33), (2, 2)] if quick else [(9, 70), (4, 8), (21, 33), (2, 2), (16, 64), (17, 65), (33, 300)]
     for shape in shapes2:
         for rate, bs in ((8, (1, 4, -1)), (16, (1, 16, -1)), (4, None), (32, (1, 8, 128))):
@@ -142,7 +155,7 @@ def run(run):
     res = par.pmap(_one, list(enumerate(P)), chunksize=3)
     base = {}
     for (route, shape, rate, bs, pert), r in zip(P, res):
-        case = {'route': route, 'shape': list(shape), 'rate': str(rate), 'blockshape': list(bs) if bs else None, 'perturbed': list(pert) if pert else None}
+        case = {'route': route, 'shape': list(shape), 'rate': str(rate), 'blockshape': list(bs) if bs else None, 'perturbed': (pert if isinstance(pert, str) else list(pert)) if pert else None}
         run.case(case)
         if isinstance(r, par.Crash) or 'error' in r:
             run.fail('C20.converts', case, str(r), 'a file')
@@ -166,7 +179,7 @@ def replay(run, rep):
     P = plan(run)
     for k, p in enumerate(P):
         if p[0] == c['route'] and list(p[1]) == c['shape'] and str(p[2]) == c['rate'] and (list(p[3]) if p[3] else None) == c['blockshape'] \
-                and (list(p[4]) if p[4] else None) == c['perturbed']:
+                and ((p[4] if isinstance(p[4], str) else list(p[4])) if p[4] else None) == c['perturbed']:
             r = _one((k, p))
             if 'error' in r:
                 run.fail('C20.converts', c, r['error'], None)
